@@ -18,12 +18,12 @@ Depth == IF kind \in {"spair", "lpair"} THEN 2 ELSE 3
 Emits(rr) ==
   CASE kind = "spair" -> /\ EmitCase("strict.tensor", P, [f |-> Pack(rr[1]), g |-> Pack(rr[2])])
                          /\ EmitCase("hyper.coproduct", P, [g |-> PackH(rr[1]), h |-> PackH(rr[2])])
-                         /\ (rr[1] = rr[2] => EmitCase("hyper.coproduct_add", P, [g |-> PackH(rr[1]), h |-> PackH(rr[2])]) /\ EmitCase("hyper.is_discrete", P, [h |-> PackH(rr[1])]))
-                         /\ (rr[1] = rr[2] => EmitCase("law.tensor_unit", P, [f |-> Pack(rr[1])]) /\ EmitCase("strict.tensor_bitor", P, [f |-> Pack(rr[1]), g |-> Pack(rr[2])]))
+                         /\ EmitCase("hyper.coproduct_add", P, [g |-> PackH(rr[1]), h |-> PackH(rr[2])]) /\ (rr[1] = rr[2] => EmitCase("hyper.is_discrete", P, [h |-> PackH(rr[1])]))
+                         /\ (rr[1] = rr[2] => EmitCase("law.tensor_unit", P, [f |-> Pack(rr[1])])) /\ EmitCase("strict.tensor_bitor", P, [f |-> Pack(rr[1]), g |-> Pack(rr[2])])
     [] kind = "striple" -> EmitCase("law.tensor_assoc", P, [f |-> Pack(rr[1]), g |-> Pack(rr[2]), h |-> Pack(rr[3])])
     [] kind = "lpair" -> EmitCase("lax.tensor", P, [f |-> rr[1], g |-> rr[2]])
                          /\ EmitCase("lax.tensor_assign", P, [pre |-> rr[1], g |-> rr[2]])     \* the in-place entry point
-                         /\ (rr[1] = rr[2] => EmitCase("lax.tensor_bitor", P, [f |-> rr[1], g |-> rr[2]]))
+                         /\ EmitCase("lax.tensor_bitor", P, [f |-> rr[1], g |-> rr[2]])
     [] kind = "ltriple" -> EmitCase("lax.tensor3", P, [f |-> rr[1], g |-> rr[2], h |-> rr[3]])
 Load == /\ stage >= 1 /\ stage <= Depth /\ kind' = kind
         /\ \E d \in Dom : r' = Append(r, d) /\ stage' = stage + 1 /\ (stage = Depth => Emits(r'))
